@@ -1,5 +1,5 @@
-THEOREMS = ["Lbfgsb.C02.evals_in_box", "Lbfgsb.C02.fixed_never_move", "Lbfgsb.C02.clip_lands_in_box", "Lbfgsb.C02.getBounds_ok"]
-MODULES = ["LbfgsbVerif.Props.C02", "LbfgsbVerif.Props.C02Bounds"]
+THEOREMS = ["Lbfgsb.C02.evals_in_box", "Lbfgsb.C02.fixed_never_move", "Lbfgsb.C02.clip_lands_in_box", "Lbfgsb.C02.getBounds_ok", "Lbfgsb.xbarModel_inBox", "Lbfgsb.evals_in_box_complete"]
+MODULES = ["LbfgsbVerif.Props.C02", "LbfgsbVerif.Props.C02Bounds", "LbfgsbVerif.Props.Kernels"]
 MONITORS = ["C02"]
 N_QUICK, N_THOROUGH = 400, 4000
 COMMON = {}
